@@ -593,8 +593,13 @@ def clause_removal_index(R, key, fn, q, id_param="packet_id", id_field="packet_i
                 whole = _iterates(recv, q, tail=False)
                 tail = _iterates(recv, q, tail=True)
                 pred_ok = _pred_is_id_eq(f, code, note["f"], id_field, id_param)
+                extra = _pred_mutable_conditions(f, code, note, q, id_field, id_param)
                 if not pred_ok:
                     ok, why = False, "the lookup's predicate is not `entry.%s == %s`" % (id_field, id_param)
+                elif extra:
+                    ok, why = False, ("besides the identifier the lookup also tests %s, which changes while the packet is in flight "
+                                      "(send progress, compaction, the DUP patch): an acknowledgement can then be refused as stale"
+                                      % extra[0])
                 elif whole and off == 0:
                     pass
                 elif tail and off == 1:
@@ -752,3 +757,50 @@ def _pred_is_id_eq(f, code, fop, id_field, id_param):
             if peel(subst(b, env)) == ("param", id_param):
                 return True
     return False
+
+
+def _pred_mutable_conditions(f, code, note, q, id_field, id_param):
+    """conditions (other than the identifier comparison) that decide a hit of the search the note stands for and that read
+    data which changes during the entry's life: arena bytes, or entry fields that are stored to after the enqueue"""
+    from ..core import same_shape
+    recv = peel(code.operand_term(note["recv"]))
+    nxs = [c for c in code.calls.values() if c.bb in code.reachable and c.is_("core::iter::Iterator::next")
+           and any(isinstance(x, tuple) and same_shape(peel(x), recv) for x in walk(code.operand_term(c.args[0])))]
+    if len(nxs) != 1:
+        return []
+    nx = nxs[0]
+    sw = None
+    for bb in code.switches:
+        si = code.switch_info(bb)
+        if si["enum"] == "core::option::Option" and any(a[0] == "call" and a[1] == nx.bb for a in phi_alts(peel(si["subject"]))):
+            sw = si
+    if sw is None or sw["edges"].get("Some") is None:
+        return []
+    cen = census(f)
+    mutable_fields = set(fld for (b, bb, fld, val, span) in cen[q]["elem_stores"])
+    # blocks of the per-element test: from the Some edge until the loop head is reached again or the loop is left
+    region = code.reach([sw["edges"]["Some"]], avoid=[nx.bb])
+    out = []
+    for sb in sorted(region):
+        if sb not in code.switches or sb == sw["bb"]:
+            continue
+        # only tests that can send control back to the loop head (i.e. reject this element) matter
+        si = code.switch_info(sb)
+        tgts = list(si["edges"].values()) + [si["otherwise"]]
+        if not any(nx.bb in code.reach([t], avoid=[]) for t in tgts if t is not None):
+            continue
+        sj = si["subject"]
+        reads_elem = any(isinstance(x, tuple) and x[0] == "call" and x[1] == nx.bb for x in walk(sj))
+        if not reads_elem:
+            continue
+        for x in walk(sj):
+            if not isinstance(x, tuple):
+                continue
+            if x[0] in ("index", "cidx") and any(isinstance(y, tuple) and y[0] == "field" and y[2] == "buf" and y[3] == OUTBOUND for y in walk(x)):
+                out.append("a byte of the transmit arena")
+            if is_call(x, "Index::index", "index") and x[3] and any(isinstance(y, tuple) and y[0] == "field" and y[2] == "buf" and y[3] == OUTBOUND for y in walk(x[3][0])):
+                out.append("a byte of the transmit arena")
+            if x[0] == "field" and x[2] in mutable_fields and x[2] != id_field and any(
+                    isinstance(y, tuple) and y[0] == "call" and y[1] == nx.bb for y in walk(x[1])):
+                out.append("the entry's `%s`" % x[2])
+    return out
